@@ -48,8 +48,9 @@ ASSUME = ["longdouble reference matrices of lie_ref (validated against mpmath in
           "sample l of a segment is at t_{i+1} + l*interval, one extra sample at the end of the last segment",
           "tolerances c*u*scale with u the eps of the input dtype: chspline 64 u max|p|; bspline 256 u (rotation) and "
           "256 u (1+max|t| + max_steps |dt|/max(theta, sqrt(u))) (translation; the last term is the conditioning of Exp/Log "
-          "of a relative pose with small rotation theta, never looser than the sqrt(u)|dt| C01/C02 allow); metrics 512 u (1+max|t|) x (alignment condition number s1/(s2+s3) for ape "
-          "with align); geodesic 64 u / max(sin(angle), sqrt(u)) (an acos-based implementation would also pass)",
+          "of a relative pose with small rotation theta, never looser than the sqrt(u)|dt| C01/C02 allow); "
+          "metrics 512 u (1+max|t|), for ape with align/scale times the alignment condition number s1/(s2+s3) times "
+          "max(1, max|t| / RMS extent) (centring); geodesic 64 u / max(sin(angle), sqrt(u)) (an acos-based implementation would also pass)",
           "bspline continuity: jump at a knot <= 10 x the larger neighbouring step at interval 1e-3 (+ 256 u scale)",
           "ape/rpe: the statistics named STD / Median are accepted with either ddof (0/1) and any value between the two "
           "middle order statistics; STD is judged only for >= 2 errors",
@@ -401,7 +402,7 @@ def run_bspline(ck):
     shapes = spline_shapes()
     case = 0
     for N in range(2, 61):
-        reps = 6 if thorough else 2
+        reps = 16 if thorough else 2
         for _ in range(reps):
             case += 1
             if not ck.mine(case):
@@ -413,7 +414,7 @@ def run_bspline(ck):
                 check_bspline_twist(ck, rng, N, iv, shape, dn)
                 check_bspline_equiv(ck, rng, N, iv, shape, dn, False)
             check_bspline_equiv(ck, rng, N, iv, shape, dn, True)
-    ncont = 10 if thorough else 3
+    ncont = 24 if thorough else 3
     for c in range(ncont):
         N = int(rng.choice([4, 5, 7, 12, 25, 60])) if c else 4
         shape = [(), (2,)][int(rng.integers(0, 2))] if N <= 12 else ()
@@ -619,14 +620,17 @@ def pairing_options(rng, est_M, ref_M, N):
             total = float(np.linalg.norm(f64(t[1:] - t[:-1]), axis=-1).sum())
             delta = total / float(rng.uniform(3.0, 8.0))
             rtol = float(rng.choice([0.1, 0.3]))
-            n, margin = pairs_distance(t, delta, rtol, all_pairs)
-            if n >= 2 and margin > 1e-6 * (1.0 + total):
+            # the pairing trajectory is the estimate (the reference with rpair); the "identical" case passes the
+            # reference as estimate, so the pairing must be unambiguous and non-empty on both
+            scr = [pairs_distance(tt[:, :3, 3], delta, rtol, all_pairs) for tt in (est_M, ref_M)]
+            if all(n >= 2 and margin > 1e-6 * (1.0 + total) for n, margin in scr):
                 out.append((dict(associate="distance", delta=delta, rtol=rtol, all=all_pairs, rpair=rpair), None))
     return out
 
 
 def align_condition(ref_t, est_t):
-    """s1 / (s2 + d*s3) of the cross-covariance of the Umeyama/Kabsch problem (d = sign of det)."""
+    """(s1 / (s2 + d*s3) of the cross-covariance of the Umeyama/Kabsch problem (d = sign of det),
+    RMS extent of the smaller of the two centred point sets)."""
     r, e = f64(ref_t), f64(est_t)
     r = r - r.mean(0)
     e = e - e.mean(0)
@@ -634,10 +638,19 @@ def align_condition(ref_t, est_t):
     U, S, Vt = np.linalg.svd(H)
     d = np.sign(np.linalg.det(U @ Vt))
     den = S[1] + d * S[2]
-    var = (e ** 2).sum(-1).mean()
-    if den <= 0 or var <= 0:
-        return np.inf
-    return float(S[0] / den)
+    spread = math.sqrt(min((e ** 2).sum(-1).mean(), (r ** 2).sum(-1).mean()))
+    if den <= 0 or spread <= 0:
+        return np.inf, 0.0
+    return float(S[0] / den), spread
+
+
+def align_scale(etype, tmax, cond, spread, s):
+    """Condition-aware magnitude of an aligned APE statistic: the alignment rotation is known to
+    u*cond*(tmax/spread) (centring loses tmax/spread digits), the aligned translations to that times tmax."""
+    lever = max(1.0, tmax / spread)
+    if etype in ("translation", "pose"):
+        return (1.0 + tmax) * cond * lever * max(1.0, s, 1.0 / s)
+    return cond * lever * max(1.0, s, 1.0 / s) * (180.0 / np.pi if etype == "degree" else 1.0)
 
 
 def check_metrics(ck, rng, N, dn):
@@ -690,7 +703,7 @@ def check_metrics(ck, rng, N, dn):
         # plain call on the noisy estimate (ordering / consistency / purity)
         call_metric(ck, "ape", ref, est, base_reg + "/noisy", n_expected=N, twice=(offset != 0.0 and etype == "translation"), **kw)
         # alignment invariance
-        for align, scale in ((True, False), (True, True), (False, True)):
+        for align, scale in ((True, False), (True, True)):       # (False, True) is not covered by the statement
             s = float(np.exp(rng.uniform(-1.2, 1.2))) if scale else 1.0
             G = random_pose_mats(rng, 1, float(rng.choice([1.0, 30.0])))[0]
             S = G.copy()
@@ -698,7 +711,9 @@ def check_metrics(ck, rng, N, dn):
             movedM = sim_apply(S, estM)
             moved = Traj(est_st, movedM, dn, sdt)
             reg = f"ape/{etype}/{dn}/align={align}/scale={scale}"
-            cond = max(align_condition(refM[:, :3, 3], estM[:, :3, 3]), align_condition(refM[:, :3, 3], movedM[:, :3, 3]))
+            c1, sp1 = align_condition(refM[:, :3, 3], estM[:, :3, 3])
+            c2, sp2 = align_condition(refM[:, :3, 3], movedM[:, :3, 3])
+            cond, spread = max(c1, c2), min(sp1, sp2)
             if not np.isfinite(cond) or cond > 1e4:
                 ck.note_add("ape_alignment_ill_conditioned_skipped")
                 continue
@@ -707,7 +722,7 @@ def check_metrics(ck, rng, N, dn):
             b = call_metric(ck, "ape", ref, moved, reg + "/moved", n_expected=N, **kw2)
             if a is None or b is None:
                 continue
-            sc = etype_scale(etype, max(tmax_all, moved.tmax())) * cond * max(1.0, s, 1.0 / s)
+            sc = align_scale(etype, max(tmax_all, moved.tmax()), cond, spread, s)
             ck.count("ape.align_invariance", reg, key=(N, refM[0].tobytes(), etype, align, scale))
             ck.ratio("ape.align_invariance", reg, stat_diffs(a, b, N), C_MET * u * sc, "metric.ape",
                      "changed_by_similarity_transform_of_estimate" if scale else "changed_by_rigid_transform_of_estimate",
@@ -717,10 +732,10 @@ def check_metrics(ck, rng, N, dn):
             copyM = sim_apply(S, refM)
             cp = Traj(est_st, copyM, dn, sdt)
             c = call_metric(ck, "ape", ref, cp, reg + "/moved-copy-of-ref", n_expected=N, **kw2)
-            condc = align_condition(refM[:, :3, 3], copyM[:, :3, 3])
+            condc, spreadc = align_condition(refM[:, :3, 3], copyM[:, :3, 3])
             if c is not None and np.isfinite(condc) and condc <= 1e4:
                 worst = max(max(abs(c[k]) for k in ("Max", "Min", "Mean", "Median", "RMSE", "STD")), math.sqrt(abs(c["SSE"])))
-                sc = etype_scale(etype, max(tmax_all, cp.tmax())) * condc * max(1.0, s, 1.0 / s)
+                sc = align_scale(etype, max(tmax_all, cp.tmax()), condc, spreadc, s)
                 ck.count("ape.align_invariance", reg + "/copy", key=(N, refM[0].tobytes(), etype, align, scale))
                 ck.ratio("ape.align_invariance", reg + "/copy", worst, C_MET * u * sc, "metric.ape",
                          "transformed_copy_of_reference_not_aligned_to_zero",
@@ -819,13 +834,13 @@ def check_planted(ck, rng, N):
 def run_metrics(ck):
     rng = ck.rng("metrics")
     thorough = ck.tier == "thorough"
-    Ns = [3, 4, 5, 200, 199, 64] + [int(v) for v in rng.integers(3, 201, 26 if thorough else 4)]
+    Ns = [3, 4, 5, 200, 199, 64] + [int(v) for v in rng.integers(3, 201, 90 if thorough else 4)]
     for i, N in enumerate(Ns):
         if not ck.mine(i):
             continue
         check_metrics(ck, rng, N, "f64" if i % 4 != 3 else "f32")
     # offset != 0 with float64 stamps on every shard (the F04 regime), and a None-stamp case
-    for _ in range(2 if thorough else 1):
+    for _ in range(6 if thorough else 1):
         N = int(rng.integers(3, 40))
         refM = random_walk(rng, 1, N, 0.5, 1.0)[0]
         estM = perturbed(rng, refM, 0.05, 0.05)
@@ -841,7 +856,7 @@ def run_metrics(ck):
                     npairs = len(keep) if which == "ape" else len(pairs_frames(len(keep), 1, kw.get("all", False)))
                     call_metric(ck, which, ref, est, f"offset/{which}/{'ref' if drop_ref else 'est'}-shorter",
                                 n_expected=npairs, twice=True, offset=off, **kw)
-    npl = 12 if thorough else 3
+    npl = 40 if thorough else 3
     for i in range(npl):
         check_planted(ck, rng, int(rng.choice([3, 4, 7, 20, 60, 200])) if i else 3)
     ck.require("metric/stamps:jitter", "metric/poses:f64", "metric/offset!=0/second-call", "metric/N=3", "metric/N=200",
